@@ -11,7 +11,7 @@ ROUTER_TB = COMMON_TB + [
 ]
 
 CFG = {
-    "harness": ["router", "router:conflicts", "router:small", "router:live", "router:pipeline"],
+    "harness": ["router", "router:conflicts", "router:small", "router:large", "router:live", "router:pipeline"],
     "run_module": "Run_Router",
     "coq_header": "From DS Require Import Base Versions Router RouterSpec.\nFrom DSR Require Import Run_Router.",
     "case_type": "rcase",
@@ -31,6 +31,12 @@ CFG = {
             "stands), methods {GET,PUT}, four range kinds over a 3-chain, with every request path of depth <= 3 over "
             "{a,b,c} x methods x versions: thorough tier every single endpoint and EVERY ordered pair (both "
             "registration orders; ~62 000 tables), quick tier a seeded sample of pairs and triples. "
+            "A large-scope stream (router:large) goes beyond the sizes the random streams reach: templates and "
+            "request paths of depth 16 / 17 / 33 / 65 (thorough: up to 129), 17 ... 257 (600) literal siblings under one "
+            "node with every witness requested, literals of 255 ... 1025 (4097) bytes differing in their last byte, "
+            "9 ... 33 (65) methods on one path with every one of them requested, 9 / 17 (33) disjoint version ranges on "
+            "one (path, method) over a chain of 2n+1 versions with a conflicting declaration last, 17 / 33 (64) "
+            "variables before a wildcard. "
             "A live slice (router:live) serves "
             "tables with a real HttpServer (unversioned, or ClientSpecifiesVersionInHeader) and reads status, echoed "
             "operation id / variables / content type / body limit and every Allow header line off the wire. "
